@@ -180,10 +180,19 @@ def case_processes(ctx, lo, hi, seeds, verbose_every):
                 if i % 4 == 1 or len(" ".join(argv_tail)) > 60:
                     # ... nor is the size of somebody's terminal window (COLUMNS / LINES are exported by interactive shells)
                     runs += [("0", cwds[0], None, {"COLUMNS": "40", "LINES": "10"}), ("0", cwds[0], None, {"COLUMNS": "200", "LINES": "60"})]
+                if i % 4 == 2 or argv_tail != list(tail):
+                    # ... nor is the interpreter's optimisation flag (judged for requests that are accepted: the pinned tree
+                    # validates some arguments with assert statements, so refusals may differ under -O)
+                    runs += [("0", cwds[0], None, {}, ["-O"])]
                 for k, run in enumerate(runs):
                     hs, cwd = run[0], run[1]
                     clock = run[2] if len(run) > 2 else None
                     extra_env = run[3] if len(run) > 3 else {}
+                    pyflags = run[4] if len(run) > 4 else []
+                    if pyflags and variants and variants[0][2].rc not in (0, None):
+                        continue
+                    if pyflags:
+                        ctx.count("python_O_runs")
                     if extra_env:
                         ctx.count("terminal_size_runs")
                     sp = os.path.join(scratch, "saved.kthlist")      # same path every time: it is echoed in the header
@@ -194,7 +203,7 @@ def case_processes(ctx, lo, hi, seeds, verbose_every):
                     if clock is not None:
                         ctx.count("pinned_clock_runs")
                     try:
-                        o = spawn(tool, argv, stdin_text=stdin_text, cwd=cwd, env=dict({"PYTHONHASHSEED": hs}, **extra_env), timeout=300, clock=clock)
+                        o = spawn(tool, argv, stdin_text=stdin_text, cwd=cwd, env=dict({"PYTHONHASHSEED": hs}, **extra_env), timeout=300, clock=clock, pyflags=pyflags)
                     except Exception as e:      # noqa: BLE001 - a watchdog firing is inconclusive, not a violation
                         ctx.problems.append({"kind": "spawn-failed", "case": ctx.case, "traceback": repr(e)})
                         continue
